@@ -125,7 +125,11 @@ DURS = ['0', '3', '2.5', '12.25', '0.125', '60', '31', ' 3 ', '+2', '1e1', '25e-
 
 def story_md_variants():
     """Every subset of the five optional fields, plus: no metadata block, block without payload."""
-    out = [('no-md', None), ('md-no-payload', B.timing_md(payload=False)), ('empty-payload', B.timing_md())]
+    out = [('no-md', None), ('md-no-payload', B.timing_md(payload=False)), ('empty-payload', B.timing_md()),
+           # a duration of exactly zero is a duration (a placeholder / break line), not a missing one
+           ('duration=0', B.timing_md(duration='0')), ('text=0,media=0', B.timing_md(text_time='0', media_time='0')),
+           ('text=0', B.timing_md(text_time='0')), ('duration=0.0', B.timing_md(duration='0.0')), ('duration=0e0', B.timing_md(duration='0e0')),
+           ('duration=0,started', B.timing_md(duration='0', started=STARTS[0])), ('media=0.000000', B.timing_md(media_time='0.000000'))]
     for r in range(1, 6):
         for sub in itertools.combinations(FIELDS, r):
             kw = {}
